@@ -340,6 +340,9 @@ def erCurRead (w : World) (st : St) (cur : RCur) (n : Nat) : Bytes × Option Err
     let e := if e == some .eof && k' > 0 then some .unexpectedEOF else e
     (b, e, { st with src := src }, .limited k', false)
 
+/-- The limit under which `envelopingReader.prepareNext` buffers a body of undeclared length. -/
+def bufferedBodyLimit (maxMsg : Nat) : Nat := maxMsg
+
 /-- `envelopingReader.prepareNext`. -/
 def erPrepareNext (w : World) (st : St) (r : ER) : Option Err × St × ER × Bool :=
   let o := st.op
@@ -357,7 +360,7 @@ def erPrepareNext (w : World) (st : St) (r : ER) : Option Err × St × ER × Boo
         if o.contentLen > o.conf.maxMsg then (some (.rpc 8), st, r, false)
         else finish st { r with current := .hardLimit o.contentLen.toNat 0 } { compressed := compressed, length := o.contentLen.toNat }
       else
-        let (data, e, st, p) := copyAllLimited w true o.conf.maxMsg st.src.fuel st 0 []
+        let (data, e, st, p) := copyAllLimited w true (bufferedBodyLimit o.conf.maxMsg) st.src.fuel st 0 []
         match e with
         | some err => (some err, st, { r with err := some err }, p)
         | none => finish st { r with current := .buffer data } { compressed := compressed, length := data.length }
